@@ -3,6 +3,7 @@ import EaselModel.Dsqdata.Codec
 import EaselModel.Dsqdata.Loader
 import EaselModel.Dsqdata.Meta
 import EaselModel.Dsqdata.Format
+import EaselModel.Dsqdata.Smem
 import EaselModel.WorkQueue.Model
 import EaselModel.Threads.Model
 import EaselModel.Pipeline.Locks
@@ -564,6 +565,19 @@ def step' (st : S) (line : String) : S × String :=
         (st, s!"ok N={ds.length} L={",".intercalate (ds.map fun d => toString d.length)} smem={hexOrDash sm}")
       | none => (st, "fault")
     | _, _ => (st, "bad-op")
+  | "unpacksmem" :: _ =>
+    -- `dsqdata_chunk_Create` + loader's placement of the packets + `dsqdata_unpack_chunk` IN PLACE inside the byte buffer
+    match argNat? ws "mode", argNat? ws "maxpacket", argNat? ws "maxseq", arg? ws "p" with
+    | some m, some mp, some ms, some p =>
+      let mode5 := m == 5
+      let ps := (natList p).map UInt32.ofNat
+      let mem := loadedSmem mode5 mp ms ps 0
+      match unpackChunkMem mode5 mem (chunkPsqOff mode5 mp ms) ps.length with
+      | some (mem', segs) =>
+        let tot := 1 + (segs.map fun x => x.2 + 1).sum
+        (st, s!"ok U={chunkU mode5 mp ms} off={chunkPsqOff mode5 mp ms} N={segs.length} segs={",".intercalate (segs.map fun x => s!"{x.1}:{x.2}")} smem={hexOrDash (mem'.take tot)}")
+      | none => (st, "fault")
+    | _, _, _, _ => (st, "bad-op")
   | "wq" :: rest => wqOp st rest
   | "wqtrace" :: _ =>
     match argNat? ws "size", arg? ws "ev" with
